@@ -822,25 +822,42 @@ pub fn run(ctx: &Ctx) {
     ctx.assume("a history ends with a pass-through sentinel message; a receive that fails with timeout/EOF ends the history");
     let rt = tokio::runtime::Builder::new_current_thread().enable_all().build().expect("runtime");
     let mut rng = Rng::derive(ctx.seed, 6, 1);
+    let epmd_owned = rt.block_on(net::start_epmd());
+    let slow_done = std::sync::atomic::AtomicBool::new(false);
+    std::thread::scope(|scope| {
+    // the scenarios whose verdict depends on pauses keeping their length run on a thread (and runtime) of their own,
+    // so that the processor-heavy histories below cannot stretch their timers; they share the one EPMD table
+    {
+        let epmd = epmd_owned.clone();
+        let slow_done = &slow_done;
+        scope.spawn(move || {
+            let rt2 = tokio::runtime::Builder::new_current_thread().enable_all().build().expect("runtime");
+            rt2.block_on(async {
+                let mut srng = Rng::derive(ctx.seed, 6, 77);
+                for h in 0..ctx.pick(4usize, 60usize) {
+                    if !ctx.time_left() {
+                        break;
+                    }
+                    slow_fragments(ctx, &mut srng, &epmd, h).await;
+                    for k in 0..3 {
+                        second_connection(ctx, &mut srng, &epmd, h * 3 + k).await;
+                        abandoned_receives(ctx, &mut srng, &epmd, h * 3 + k).await;
+                    }
+                }
+            });
+            slow_done.store(true, std::sync::atomic::Ordering::Release);
+        });
+    }
     rt.block_on(async {
         // slow-peer timelines for the node's receive loop run concurrently with the histories below
         let timelines: Vec<std::pin::Pin<Box<dyn std::future::Future<Output = ()> + '_>>> =
             (0..ctx.pick(10usize, 80usize)).map(|i| Box::pin(read_half_timeline(ctx, ctx.seed.wrapping_mul(1000).wrapping_add(i as u64 + 6), i)) as std::pin::Pin<Box<dyn std::future::Future<Output = ()> + '_>>).collect();
         let timelines = super::common::join_all(timelines);
-        // fragments arriving slowly between ticks: also concurrently (they mostly wait)
-        let epmd = net::start_epmd().await;
-        let epmd = &epmd;
+        let epmd = &epmd_owned;
+        // the fake EPMD lives on this runtime: keep driving it until the other thread is through
         let slow = async {
-            let mut srng = Rng::derive(ctx.seed, 6, 77);
-            for h in 0..ctx.pick(4usize, 60usize) {
-                if !ctx.time_left() {
-                    break;
-                }
-                slow_fragments(ctx, &mut srng, epmd, h).await;
-                for k in 0..3 {
-                    second_connection(ctx, &mut srng, epmd, h * 3 + k).await;
-                    abandoned_receives(ctx, &mut srng, epmd, h * 3 + k).await;
-                }
+            while !slow_done.load(std::sync::atomic::Ordering::Acquire) {
+                tokio::time::sleep(Duration::from_millis(10)).await;
             }
         };
         let main_part = async {
@@ -1067,5 +1084,6 @@ pub fn run(ctx: &Ctx) {
         }
         };
         tokio::join!(timelines, main_part, slow);
+    });
     });
 }
